@@ -2100,7 +2100,9 @@ class Process:
         return _common.pctxsw(int(ctxsw[0]), int(ctxsw[1]))
 
     @wrap_exceptions
-    def num_threads(self, _num_threads_re=re.compile(br'Threads:\t(\d+)')):
+    def num_threads(
+        self, _num_threads_re=re.compile(br'^Threads:\t(\d+)', re.M)
+    ):
         # Using a re is faster than iterating over file line by line.
         data = self._read_status_file()
         return int(_num_threads_re.findall(data)[0])
@@ -2310,13 +2312,17 @@ class Process:
         return int(self._parse_stat_file()['ppid'])
 
     @wrap_exceptions
-    def uids(self, _uids_re=re.compile(br'Uid:\t(\d+)\t(\d+)\t(\d+)')):
+    def uids(
+        self, _uids_re=re.compile(br'^Uid:\t(\d+)\t(\d+)\t(\d+)', re.M)
+    ):
         data = self._read_status_file()
         real, effective, saved = _uids_re.findall(data)[0]
         return _common.puids(int(real), int(effective), int(saved))
 
     @wrap_exceptions
-    def gids(self, _gids_re=re.compile(br'Gid:\t(\d+)\t(\d+)\t(\d+)')):
+    def gids(
+        self, _gids_re=re.compile(br'^Gid:\t(\d+)\t(\d+)\t(\d+)', re.M)
+    ):
         data = self._read_status_file()
         real, effective, saved = _gids_re.findall(data)[0]
         return _common.pgids(int(real), int(effective), int(saved))
